@@ -64,6 +64,9 @@ var c18Tpls = map[string]string{
 	"sv.js":   "var a = \"{{ sv }}\", b = \"{{ sv|markjs }}\";{{ x }}",
 	// a template that cannot be found (on the filesystem; the harness loader takes the name for an inline source)
 	"q.html": "A{% include 'nosuch-' ~ l|length ~ '.html' %}B{{ x }}",
+	// struct values whose Go types have the same name (function-local "row", anonymous structs) and different
+	// layouts, one layout per call: a field is found by the value's own type
+	"rw.txt": "{{ rw.A }}#{{ rw.B }}|{{ an.X }}#{{ an.Y }}|{{ rw.A }}",
 	"f.js":   "{% if x matches pat %}g('{{ y }}'){% endif %}{% for i in l %}{{ i }};{% endfor %}{{ x starts with pat ? 1 : 0 }}",
 }
 
@@ -92,6 +95,7 @@ var c18Ops = []c18Op{
 	{false, "mf.txt", false, ""}, {false, "mm.txt", false, "[<k>]|<j>|[[<i>]]"}, {false, "e1.html", false, ""}, {true, "e2.html", false, ""},
 	{false, "tf.txt", false, ""}, {false, "tn.txt", false, ""},
 	{false, "sv.html", false, ""}, {false, "sv.js", false, ""}, {false, "q.html", false, ""},
+	{false, "rw.txt", false, "inv#7|5#y|inv"},
 }
 
 // c18Epoch makes template names and patterns unique per schedule / iteration ("a~17.html" is served like
@@ -127,7 +131,42 @@ func c18SharedFor(k int64) stick.Value {
 	return v
 }
 
+func c18RowA() (stick.Value, stick.Value) {
+	type row struct {
+		A string
+		B int
+	}
+	return row{"inv", 7}, struct {
+		X int
+		Y string
+	}{5, "y"}
+}
+
+func c18RowB() (stick.Value, stick.Value) {
+	type row struct {
+		pad [3]int
+		B   int
+		C   float64
+		A   string
+	}
+	return row{B: 7, A: "inv"}, struct {
+		Y string
+		Z bool
+		X int
+	}{"y", true, 5}
+}
+
 func c18Ctx(k int64, v int) map[string]stick.Value {
+	rw, an := c18RowA()
+	if v%2 == 1 {
+		rw, an = c18RowB()
+	}
+	m := c18Ctx0(k, v)
+	m["rw"], m["an"] = rw, an
+	return m
+}
+
+func c18Ctx0(k int64, v int) map[string]stick.Value {
 	pre := []string{"", "p", "q"}[v%3]
 	first := "<"
 	if pre != "" {
@@ -509,7 +548,7 @@ func c18Levels(tier string) []core.Level {
 	// all pairs of the first 12 operations; the later ones (nested includes, nil-context calls, padded templates with
 	// use, failing / nested macros, templates that end early) with themselves, with the others of their kind and with
 	// two of the first (html with blocks, css with include)
-	group := map[int]int{13: 1, 14: 1, 15: 2, 16: 2, 17: 2, 18: 3, 19: 3, 20: 4, 21: 4, 22: 5, 23: 5, 24: 6, 25: 6, 26: 6}
+	group := map[int]int{13: 1, 14: 1, 15: 2, 16: 2, 17: 2, 18: 3, 19: 3, 20: 4, 21: 4, 22: 5, 23: 5, 24: 6, 25: 6, 26: 6, 27: 6}
 	paired := func(i, j int) bool {
 		if j < 12 || i == 0 || i == 3 || i == j {
 			return true
@@ -534,7 +573,7 @@ func c18Levels(tier string) []core.Level {
 		nTriples = len(triples)
 	}
 	lv := []core.Level{
-		{Name: "twig env: pairs of 27 operations (incl. the same one twice), all schedules with <= 1 preemption", Gen: func(emit func(core.Case)) { pairs(0, 1, emit) }},
+		{Name: "twig env: pairs of 28 operations (incl. the same one twice), all schedules with <= 1 preemption", Gen: func(emit func(core.Case)) { pairs(0, 1, emit) }},
 		{Name: fmt.Sprintf("twig env: all pairs (but those with the two filter operations), all schedules with <= %d preemptions", bound), Gen: func(emit func(core.Case)) { pairs(0, bound, emit) }},
 		{Name: "core env: all pairs, all schedules with <= 1 preemption", Gen: func(emit func(core.Case)) { pairs(1, 1, emit) }},
 		{Name: fmt.Sprintf("twig env: %d three-thread scenarios, all schedules with <= 2 preemptions", nTriples), Gen: func(emit func(core.Case)) {
